@@ -96,6 +96,20 @@ def run(res, a):
     tl = [l for l in lines if l.startswith("T ")]
     fl = [l for l in lines if l.startswith("F ")]
     bad, tcount = oracle(tl, res)
+    # the overflow-detecting multiplies judged by exact integer arithmetic (not by the model): flag = (count*size >= 2^64),
+    # and the product is exact when no overflow is reported (seed C16d: an unchecked fast path for one small operand)
+    for l in fl:
+        f = l.split()
+        if f[1] in ("mul_overflow", "count_size_overflow") and len(f) == 7:
+            c, sz, o, t = int(f[2]), int(f[3]), int(f[5]), int(f[6])
+            tcount["mulcheck"] += 1
+            if o != (1 if c * sz >= (1 << 64) else 0):
+                bad.append(("overflow-flag", "%s(%d, %d) reports overflow=%d, the exact product is %d (2^64 = %d)" % (F2C[f[1]], c, sz, o, c * sz, 1 << 64),
+                            "%s(%d, %d)" % (F2C[f[1]], c, sz)))
+                break
+            if o == 0 and t != c * sz:
+                bad.append(("overflow-product", "%s(%d, %d) = %d without overflow, the exact product is %d" % (F2C[f[1]], c, sz, t, c * sz), "%s(%d, %d)" % (F2C[f[1]], c, sz)))
+                break
     for key, text, wit in bad:
         res.violation("impl:" + key, text, witness=wit)
     okb, txt = vlib.ocaml_build()
